@@ -78,6 +78,13 @@ def attach_rule_parse_monitor():
                     continue
                 judged = True
                 if h is False:
+                    names = [k for k, _, _ in cls.__validators__]
+                    later = [k for k in names[names.index(key) + 1:] if isinstance(getattr(cls, k, None), ConstraintMode)]
+                    if later:
+                        mon.record("C01/strict-then-lax:%s<%s" % (key, later[0]),
+                                   f"Rule.parse on {cls!r} returned {result!r:.80}: strict {key}={bound!r:.60} broken by later lax {later[0]}",
+                                   {"rule": repr(cls), "input": repr(value)[:120], "result": repr(result)[:120]})
+                        continue
                     mon.record("C01/online/constraint:" + key,
                                f"Rule.parse on {cls!r} returned {result!r:.80} violating {key}={bound!r:.60}",
                                {"rule": repr(cls), "input": repr(value)[:120], "result": repr(result)[:120]})
